@@ -6,7 +6,7 @@ open Dblib.Gen.Tds
 
 def parseField (s : String) : Option PField :=
   if s == "k" then some (.longBinary (some [1]))
-  else if s == "kb" ∨ s == "kt" then some (.longBinary (some [0]))
+  else if s == "kb" ∨ s == "kt" ∨ s == "kw" ∨ s == "kn" ∨ s == "kh" then some (.longBinary (some [0]))   -- not a usable key
   else if s == "e" then some (.longBinary none)
   else if s == "v" then some .other
   else if s.startsWith "b" then some .other     -- a VARBINARY value (key or nonce typed as VARBINARY): not a LONGBINARY field
